@@ -324,6 +324,21 @@ def run(tier, seed):
         steps = random_session(rng, "small", ("solve",), max_product=200)
         steps = [s for s in steps if s["a"] not in ("find_answer", "solve")]
         specs.append({"kind": "session", "steps": steps, "small": True})
+    # explicit constant NODES (as count_true() of literals, fold_or([]) ... produce them) under every operator, negative,
+    # zero and positive: the printer has its own branch for them
+    V = lambda k: {"f": "var", "id": k}
+    for n in (-3, -1, 0, 2):
+        K = {"f": "iconst", "n": n}
+        forms = [{"f": "eq", "args": [{"f": "neg", "args": [K]}, V(0)]},
+                 {"f": "le", "args": [{"f": "add", "args": [K, V(0)]}, {"f": "ilit", "n": 3}]},
+                 {"f": "ne", "args": [{"f": "sub", "args": [V(0), {"f": "neg", "args": [K]}]}, K]},
+                 {"f": "ge", "args": [{"f": "cond", "args": [V(1), K, {"f": "neg", "args": [K]}]}, V(0)]},
+                 {"f": "alldifferent", "args": [V(0), K, {"f": "neg", "args": [{"f": "neg", "args": [K]}]}]},
+                 {"f": "iff", "args": [V(1), {"f": "bconst", "b": n >= 0}]},
+                 {"f": "or", "args": [{"f": "not", "args": [{"f": "bconst", "b": n < 0}]}, V(1)]}]
+        specs.append({"kind": "session", "small": True,
+                      "steps": [{"a": "int_var", "lo": -4, "hi": 4}, {"a": "bool_var"}] + [{"a": "ensure", "x": f} for f in forms]
+                      + [{"a": "add_key", "ids": [0, 1]}]})
     for h in ("conn", "cycle", "path", "borders", "borders-holes", "cross"):
         for prim in (True, False):
             if h == "path" and not prim:
